@@ -56,7 +56,7 @@ fn main() {
             let id = args.get(2).cloned().unwrap_or_default();
             let tier = Tier::parse(args.get(3).map(|s| s.as_str()).unwrap_or("quick"));
             if let Some(spec) = specs.iter().find(|s| s.id == id) {
-                for s in (spec.build)(tier) {
+                for s in driver::scenario_list(spec, tier) {
                     println!("{}", s.name);
                 }
             }
